@@ -34,6 +34,14 @@ def _round(rng):
               if rng.random() < 0.3 else 0} for i in range(n)]
     spec = {"workers": w, "units": units, "pattern": pat,
             "mode": rng.choice(["scheduler", "scheduler", "bursts"])}
+    if rng.random() < 0.15:
+        # stop() called while the queue still holds units for seconds
+        spec["mode"], spec["pattern"] = "stop_early", "backlog"
+        w = spec["workers"] = rng.randint(1, 4)
+        n = rng.randint(6 * w, 8 * w)
+        d = rng.choice([0.8, 1.0])
+        spec["units"] = [{"id": i, "dur": d, "raise": rng.random() < 0.15,
+                          "payload": 0} for i in range(n)]
     if spec["mode"] == "bursts":
         left, bursts = n, []
         while left > 0:
@@ -171,6 +179,14 @@ def work(job, scratch):
                         what=f"unit {d['got']} payload {d['extra']} != "
                              f"{u.get('payload', 0)}"))
                 ev("delivered_" + d["kind"])
+        if out.get("undone_after_stop"):
+            res["violations"].append(dict(
+                wit, mech="unit-dropped-by-stop",
+                what=f"stop() returned after {out.get('stop_s', 0):.1f} s "
+                     f"with the futures of units {out['undone_after_stop']} "
+                     "still pending"))
+        if spec["mode"] == "stop_early":
+            ev("stop_with_backlog_rounds")
         for i in ids:
             if got.get(i, 0) != 1:
                 res["violations"].append(dict(
